@@ -6,6 +6,7 @@ import (
 	"fmt"
 	"os"
 	"path/filepath"
+	"sort"
 	"sync"
 	"sync/atomic"
 	"time"
@@ -546,7 +547,8 @@ func (m *Manager) ReloadSSTables() error {
 		return fmt.Errorf("failed to read SSTable directory: %w", err)
 	}
 
-	// Open all SSTable files
+	// Open all SSTable files, oldest data first (see loadSSTables)
+	entries = sstableEntriesByAge(entries)
 	for _, entry := range entries {
 		if entry.IsDir() || filepath.Ext(entry.Name()) != ".sst" {
 			continue // Skip directories and non-SSTable files
@@ -879,6 +881,47 @@ func (m *Manager) backgroundFlush() {
 	}
 }
 
+// sstableEntriesByAge orders the table files of a directory listing the way Get must consult
+// them, oldest data first: deeper levels hold older data than shallower ones, and inside a
+// level the creation timestamp of the file name decides. The file number is not an age: it
+// restarts at 1 on every open and compaction outputs are numbered from 1 per task. Files whose
+// names do not follow level_number_timestamp.sst keep their directory order, before all others.
+func sstableEntriesByAge(entries []os.DirEntry) []os.DirEntry {
+	type aged struct {
+		entry     os.DirEntry
+		parsed    bool
+		level     int
+		timestamp int64
+	}
+	var files []aged
+	for _, entry := range entries {
+		a := aged{entry: entry}
+		var number uint64
+		if n, err := fmt.Sscanf(entry.Name(), sstableFilenameFormat, &a.level, &number, &a.timestamp); n == 3 && err == nil {
+			a.parsed = true
+		}
+		files = append(files, a)
+	}
+	sort.SliceStable(files, func(i, j int) bool {
+		a, b := files[i], files[j]
+		if a.parsed != b.parsed {
+			return !a.parsed
+		}
+		if !a.parsed {
+			return false
+		}
+		if a.level != b.level {
+			return a.level > b.level
+		}
+		return a.timestamp < b.timestamp
+	})
+	sorted := make([]os.DirEntry, 0, len(files))
+	for _, f := range files {
+		sorted = append(sorted, f.entry)
+	}
+	return sorted
+}
+
 // loadSSTables loads existing SSTable files from disk
 func (m *Manager) loadSSTables() error {
 	// Get all SSTable files in the directory
@@ -889,6 +932,9 @@ func (m *Manager) loadSSTables() error {
 		}
 		return fmt.Errorf("failed to read SSTable directory: %w", err)
 	}
+
+	// Get scans m.sstables from the last to the first: the newest data must come last
+	entries = sstableEntriesByAge(entries)
 
 	// Loop through all entries
 	for _, entry := range entries {
